@@ -21,7 +21,10 @@ ASSUMPTIONS = [
 def gen_case(r):
     d = G.doc(r, 4 if r.coin(60) else 3)
     p = G.guided_path(r, d, max_len=5, mode="typed" if r.coin(70) else "any")
-    return d, p
+    # a second document resolved afterwards with the SAME path object (a perturbed copy of
+    # the first, or an independent one)
+    d2 = G.twinned(r, d, 30) if r.coin(40) else G.doc(r, 3)
+    return d, p, d2
 
 
 def norm_sel(x):
@@ -29,7 +32,7 @@ def norm_sel(x):
 
 
 def body(case):
-    doc, path = case
+    doc, path, doc2 = case
     out = Outcome()
     ns = build.ns()
     parts = path.parts
@@ -101,6 +104,26 @@ def body(case):
                     f"{show(path,250)} on {show(doc,200)}: got {show(gp,250)} expected {show(exp_pairs,250)}")
     except Exception as e:
         out.exc("no-raise|return_paths", e)
+    # the same path object on a second document: nothing of the first resolution may linger
+    sel2 = model.ref_select(parts, doc2) if parts else [(doc2, ())]
+    try:
+        g2 = p_obj.get_data(doc2, return_paths=True)
+        g2v = D(doc2).get(p_obj)
+    except Exception as e:
+        out.exc("no-raise|second-document", e)
+        return out
+    try:
+        if not parts:
+            ok2 = norm_sel([g2]) == norm_sel(sel2) and exact(g2v) == exact(doc2)
+        elif conc:
+            # (a concrete path that selects a None node and an absent one both give None without paths)
+            ok2 = norm_sel([] if g2 is None else [g2]) == norm_sel(sel2) and exact(g2v) == exact(sel2[0][0] if sel2 else None)
+        else:
+            ok2 = norm_sel(g2) == norm_sel(sel2) and [exact(x) for x in g2v] == [exact(v) for v, _ in sel2]
+    except Exception:
+        ok2 = False
+    if not ok2:
+        out.add("selection", "selection|second-document", f"{show(path,250)} after resolving {show(doc,120)}, on {show(doc2,150)}: got {show(g2,200)} expected {show(sel2,200)}")
     return out
 
 
